@@ -176,11 +176,17 @@ struct Built {
 
 /// Builds a router by a seeded construction programme; mirrors it in the reference table.
 fn build(rng: &mut StdRng, depth: usize, hits: &Arc<Vec<AtomicU64>>, next_leaf: &mut u32, next_tag: &mut u32, layer_seen: &Arc<AtomicU64>, ops_log: &mut Vec<String>) -> Built {
-    let mut router = Router::new();
-    let mut routes: Vec<RefRoute> = Vec::new();
+    let end = hits.len() as u32;
+    build_from(Built { router: Router::new(), routes: Vec::new() }, end, rng, depth, hits, next_leaf, next_tag, layer_seen, ops_log)
+}
+
+/// Continues the construction of `start` (leaves are taken from `*next_leaf..leaf_end`).
+#[allow(clippy::too_many_arguments)]
+fn build_from(start: Built, leaf_end: u32, rng: &mut StdRng, depth: usize, hits: &Arc<Vec<AtomicU64>>, next_leaf: &mut u32, next_tag: &mut u32, layer_seen: &Arc<AtomicU64>, ops_log: &mut Vec<String>) -> Built {
+    let Built { mut router, mut routes } = start;
     let n_ops = rng.gen_range(0..9);
     for _ in 0..n_ops {
-        if (*next_leaf as usize) + 2 >= hits.len() {
+        if *next_leaf + 2 >= leaf_end {
             break;
         }
         match rng.gen_range(0..10) {
@@ -231,7 +237,7 @@ fn build(rng: &mut StdRng, depth: usize, hits: &Arc<Vec<AtomicU64>>, next_leaf: 
             _ => {
                 if depth < 3 {
                     ops_log.push(format!("{}merge(", "  ".repeat(depth)));
-                    let sub = build(rng, depth + 1, hits, next_leaf, next_tag, layer_seen, ops_log);
+                    let sub = build_from(Built { router: Router::new(), routes: Vec::new() }, leaf_end, rng, depth + 1, hits, next_leaf, next_tag, layer_seen, ops_log);
                     ops_log.push(format!("{})", "  ".repeat(depth)));
                     router = router.merge(sub.router);
                     routes.extend(sub.routes);
@@ -330,6 +336,7 @@ fn scenario_on(idx: usize, seed: u64, tables: usize, gate: Option<&std::sync::Ba
     let rt = tokio::runtime::Builder::new_current_thread().build().unwrap();
     let mut problems: Vec<String> = Vec::new();
     let (mut n_tables, mut n_rejected, mut n_req, mut n_match, mut n_nf, mut n_dc, mut n_layered, mut n_merged) = (0u64, 0u64, 0u64, 0u64, 0u64, 0u64, 0u64, 0u64);
+    let mut n_cross = 0u64;
     let mut sigs: std::collections::BTreeSet<String> = Default::default();
     let mut sample = None;
     // phase 1: construct every table of this scenario (back to back; released together with the
@@ -338,13 +345,76 @@ fn scenario_on(idx: usize, seed: u64, tables: usize, gate: Option<&std::sync::Ba
     if let Some(g) = gate {
         g.wait();
     }
+    // every fourth scenario (idx % 4 == 1) assembles each table across threads: two parts are built
+    // on two other threads, merged here, and the construction continues on this thread - a router
+    // is a value that may be built in one place (spawn_blocking, a plugin's init thread) and
+    // extended in another
+    let cross_thread = idx % 4 == 1 && !super::miri() && gate.is_none();
     for _t in 0..tables {
-        let hits: Arc<Vec<AtomicU64>> = Arc::new((0..64).map(|_| AtomicU64::new(0)).collect());
+        let hits: Arc<Vec<AtomicU64>> = Arc::new((0..if cross_thread { 192 } else { 64 }).map(|_| AtomicU64::new(0)).collect());
         let layer_seen = Arc::new(AtomicU64::new(0));
         let mut ops = Vec::new();
         let mut rng2 = StdRng::seed_from_u64(rng.gen());
         let (mut nl, mut nt) = (0u32, 1u32);
-        let built = std::panic::catch_unwind(std::panic::AssertUnwindSafe(|| build(&mut rng2, 0, &hits, &mut nl, &mut nt, &layer_seen, &mut ops)));
+        let built = if cross_thread {
+            n_cross += 1;
+            // each part runs on a FRESH thread (whatever per-thread construction state there is starts
+            // from scratch there); a part may continue a router that another thread began
+            let part = |start: Option<Built>, seed: u64, leaf0: u32, leaf_end: u32, tag0: u32| {
+                let (hits, layer_seen) = (hits.clone(), layer_seen.clone());
+                std::thread::spawn(move || {
+                    let mut r = StdRng::seed_from_u64(seed);
+                    let (mut nl, mut nt) = (leaf0, tag0);
+                    let mut ops = Vec::new();
+                    let start = start.unwrap_or(Built { router: Router::new(), routes: Vec::new() });
+                    let b = std::panic::catch_unwind(std::panic::AssertUnwindSafe(|| build_from(start, leaf_end, &mut r, 1, &hits, &mut nl, &mut nt, &layer_seen, &mut ops)));
+                    let msg = runner::take_panics().last().map(|p| p.message.clone());
+                    (b.ok(), ops, msg)
+                })
+                .join()
+                .unwrap()
+            };
+            let (a, ops_a, mut msg_a) = part(None, rng2.gen(), 0, 30, 1);
+            ops.push("begun on thread 1 {".into());
+            ops.extend(ops_a);
+            // ... continued on thread 2
+            let a = match a {
+                Some(a) => {
+                    let (a2, ops_a2, m) = part(Some(a), rng2.gen(), 30, 62, 500);
+                    ops.push("} continued on thread 2 {".into());
+                    ops.extend(ops_a2);
+                    msg_a = msg_a.or(m);
+                    a2
+                }
+                None => None,
+            };
+            let (b, ops_b, msg_b) = part(None, rng2.gen(), 64, 126, 1_000);
+            ops.push("} another part on thread 3 {".into());
+            ops.extend(ops_b);
+            ops.push("} merged and continued on the scenario's thread:".into());
+            match (a, b) {
+                (Some(a), Some(b)) => {
+                    (nl, nt) = (128, 2_000);
+                    std::panic::catch_unwind(std::panic::AssertUnwindSafe(|| {
+                        let mut routes = a.routes;
+                        routes.extend(b.routes);
+                        let merged = Built { router: a.router.merge(b.router), routes };
+                        build_from(merged, 190, &mut rng2, 0, &hits, &mut nl, &mut nt, &layer_seen, &mut ops)
+                    }))
+                }
+                _ => {
+                    // a part was rejected at construction: judge the message like any other rejection
+                    let msg = msg_a.or(msg_b).unwrap_or_default();
+                    if !(msg.contains("Invalid route") || msg.contains("Paths must start")) {
+                        problems.push(format!("router construction panicked with an undocumented message: {msg}"));
+                    }
+                    n_rejected += 1;
+                    continue;
+                }
+            }
+        } else {
+            std::panic::catch_unwind(std::panic::AssertUnwindSafe(|| build(&mut rng2, 0, &hits, &mut nl, &mut nt, &layer_seen, &mut ops)))
+        };
         match built {
             Ok(b) => all_built.push((b, hits, layer_seen, ops)),
             Err(_) => {
@@ -481,6 +551,7 @@ fn scenario_on(idx: usize, seed: u64, tables: usize, gate: Option<&std::sync::Ba
     c.insert("tables_built".into(), n_tables);
     c.insert("tables_rejected_at_construction".into(), n_rejected);
     c.insert("tables_with_merge".into(), n_merged);
+    c.insert("tables_assembled_across_threads".into(), n_cross);
     c.insert("requests_routed".into(), n_req);
     c.insert("requests_matched".into(), n_match);
     c.insert("requests_matched_with_layers".into(), n_layered);
